@@ -195,6 +195,24 @@ func (c *Client) Genesis(context.Context, *eth2api.GenesisOpts) (*eth2api.Respon
 	}, Metadata: map[string]any{}}, nil
 }
 
+// ForkSchedule serves the chain's fork schedule (genesis fork, then Chain.Forks in order), consistent with
+// VersionAt, Spec and Domain.
+func (c *Client) ForkSchedule(context.Context, *eth2api.ForkScheduleOpts) (*eth2api.Response[[]*eth2p0.Fork], error) {
+	c.count("fork_schedule")
+	prev := c.Chain.ForkVersion
+	out := []*eth2p0.Fork{{PreviousVersion: prev, CurrentVersion: prev, Epoch: 0}}
+	for _, f := range c.Chain.Forks {
+		if f.Epoch == 0 {
+			out[0].CurrentVersion = f.Version
+			prev = f.Version
+			continue
+		}
+		out = append(out, &eth2p0.Fork{PreviousVersion: prev, CurrentVersion: f.Version, Epoch: f.Epoch})
+		prev = f.Version
+	}
+	return &eth2api.Response[[]*eth2p0.Fork]{Data: out, Metadata: map[string]any{}}, nil
+}
+
 func (c *Client) Domain(_ context.Context, dt eth2p0.DomainType, epoch eth2p0.Epoch) (eth2p0.Domain, error) {
 	c.lag("domain")
 	return ComputeDomain(dt, c.Chain.VersionAt(epoch), c.Chain.GenesisValidatorsRoot), nil
